@@ -78,15 +78,20 @@ class GraphQLSyntaxError(GraphQLResponseError):
         if self._highlighted is not None:
             return self._highlighted
 
-        highlight = highlight_location(self.source, self.position)
+        highlight = highlight_location(self.source, self._render_position())
         self._highlighted = "%s %s" % (self.message, highlight)
         return self._highlighted
 
     def __str__(self) -> str:
         return self.highlighted
 
+    def _render_position(self) -> int:
+        # The lexer reports truncated escape sequences one past the end of the
+        # source; keep rendering total by clamping into [0, len(source)].
+        return max(0, min(self.position, len(self.source)))
+
     def to_dict(self) -> Dict[str, Any]:
-        line, col = index_to_loc(self.source, self.position)
+        line, col = index_to_loc(self.source, self._render_position())
         return {
             "message": str(self),
             "locations": [{"line": line, "columne": col}],
